@@ -102,10 +102,18 @@ def polarity(tree, stmt, within):
                 t = t.operand
                 neg = True
             if isinstance(t, ast.Name):
+                if _is_budget_guard_name(tree.fnode, t.id):
+                    continue   # a named budget guard (`budget_left = budget > est`) is context, not the indicator
                 pol = field == "body"
                 return "T" if pol != neg else "F"
             return "-"
     return "-"
+
+
+def _is_budget_guard_name(fnode, name):
+    defs = [n for n in ast.walk(fnode) if isinstance(n, ast.Assign)
+            and any(isinstance(t, ast.Name) and t.id == name for t in n.targets)]
+    return bool(defs) and all(isinstance(d.value, (ast.Compare, ast.BoolOp)) and "budget" in ast.unparse(d.value) for d in defs)
 
 
 def _hoisted_defs(fnode):
